@@ -8,7 +8,21 @@ from mc import evidence, harness as H, par, peer as P, report, runner, vnet
 
 PID = 'C18'
 V4, V6 = int(socket.AF_INET), int(socket.AF_INET6)
-HOSTS = [('name', 'host.example'), ('name', 'a-b.c9.example.org'), ('v4', '192.0.2.10'), ('v6', '::1'), ('v6', 'fe80::1'),
+def long_name(n):
+    """a valid host name of exactly n characters (labels of at most 63, RFC 1035)"""
+    labels, left = [], n
+    while left > 0:
+        k = min(63, left)
+        if left - k == 1:
+            k -= 1
+        labels.append('x' * k)
+        left -= k + 1
+    s = '.'.join(labels)
+    return s[:n] if len(s) >= n else s + 'y' * (n - len(s))
+
+
+# names of every length class: single character, one full label, one character past a label's limit, the longest name DNS allows
+HOSTS = [('name', 'host.example'), ('name', 'a-b.c9.example.org'), ('name', 'h'), ('name', long_name(63)), ('name', long_name(64)), ('name', long_name(65)), ('name', long_name(253)), ('v4', '192.0.2.10'), ('v6', '::1'), ('v6', 'fe80::1'),
          ('v6', '2001:0db8:0000:0000:0000:0000:0000:0001'), ('v6', '::ffff:192.0.2.1'), ('v6', '2001:DB8::A'), ('v6', 'FE80::1')]
 PORTS_OK = [1, 22, 2222, 65535]
 PORTS_BAD = [0, 65536, 70000]
